@@ -96,7 +96,7 @@ PROPS = {
         assumptions=["ojg parse / print round-trips JSON values (numbers compared as exact decimals)"],
     ),
     "C15": dict(
-        proof_modules=["KsVerif.Proofs.C15"],
+        proof_modules=["KsVerif.Proofs.C15", "KsVerif.Proofs.C15Spec"],
         families=["kfl.redact"],
         rule="kfl.redact: records with unique sentinel strings at every leaf (objects, arrays, nested objects, JSON "
              "documents held plainly and base64-wrapped in string fields, a document nested two levels deep) x 1-3 "
